@@ -166,6 +166,26 @@ def observers_contract():
           'C03 C07')
 
 
+@proof(['C07', 'C01'], targets=[(FI, 'VMDKInspector.virtual_size')])
+def size_unknown_until_the_sparse_header_is_captured():
+    """The provisional descriptor region at offset 0 (min_length=4) may be
+    parsed before the 64-byte sparse header is in: whatever it yielded, the
+    capacity field has not been captured, so virtual_size is 0 - not a
+    struct.error."""
+    M = load(FI)
+    insp = M.VMDKInspector()
+    k = fresh_int('header_bytes_captured', 0, 63)
+    insp.region('header').data = fresh_bytes('partial_header', length=k)
+    vt = pick('vmdktype', ['monolithicsparse', 'streamoptimized',
+                           'monolithicflat', 'formatnotfound'])
+    parsed = pick('descriptor_parsed', ['no', 'yes'])
+    if parsed == 'yes':
+        insp.desc_text = 'kdmvcreatetype="%s"' % vt
+        insp.vmdktype = vt
+    check('size/zero-until-the-sparse-header-is-captured',
+          insp.virtual_size == 0)
+
+
 class Word:
     """The part of a line before a separator: opaque predicates."""
 
@@ -308,6 +328,31 @@ def parse_descriptor_never_raises():
     if insp.desc_text:
         check('parse/text-is-lowercased', insp.desc_text
               == insp.desc_text.lower())
+
+
+@proof(['C01', 'C07'], targets=[(FI, 'VMDKInspector._parse_descriptor')],
+       native=False, assumes=['A-CODEC'])
+def provisional_descriptor_of_a_sparse_image_names_no_type():
+    """Before the sparse header is complete the provisional descriptor
+    region at offset 0 holds the first x bytes of the stream (4 <= x <= 63,
+    chunk dependent).  For a sparse image with an admissible version the
+    second version byte is the NUL at index 5, so the text parsed from it
+    is at most five characters and names no create type: vmdktype stays
+    'formatnotfound', whatever x was."""
+    M = load(FI)
+    insp = M.VMDKInspector()
+    x = fresh_int('provisional_bytes', 4, 63)
+    data = fresh_bytes('stream_prefix', length=x)
+    assume(data[0:4] == b'KDMV')
+    if x >= 5:
+        assume(data[4] >= 1, data[4] <= 3)
+    if x >= 6:
+        assume(data[5] == 0)
+    insp.region('descriptor').data = data
+    insp.region_complete('descriptor')
+    check('provisional/no-create-type',
+          insp.vmdktype == 'formatnotfound')
+    check('provisional/size-stays-unknown', insp.virtual_size == 0)
 
 
 CANARIES = [
